@@ -156,7 +156,7 @@ func watchers() []string {
 	return out
 }
 
-const settleDeadline = 2 * time.Second
+const settleDeadline = 10 * time.Second
 
 // settle waits until the (single) watcher is blocked in its select, parked by the trap, or gone.
 func settle() (quiet bool, alive bool, nWatchers int) {
@@ -186,7 +186,7 @@ func settle() (quiet bool, alive bool, nWatchers int) {
 
 // ---------------------------------------------------------------- running one scenario
 
-const opDeadline = 5 * time.Second
+const opDeadline = 20 * time.Second
 
 // call runs f under recover and a deadline.
 func call(f func()) string {
